@@ -28,8 +28,17 @@ SlotName(q) ==
     ELSE IF q <= OffC THEN [p |-> "visible_bias", r |-> 0, i |-> q - OffB]
     ELSE IF q <= OffD THEN [p |-> "hidden_bias", r |-> q - OffC, i |-> 0]
     ELSE [p |-> "aux_bias", r |-> q - OffD, i |-> 0]
+\* (see GradRBM.tla: the offsets are those of LayoutDefs.tla)
+LD == INSTANCE LayoutDefs
+ArchOf == <<"purif", P.nv, P.nh, P.na>>
 LayoutBijection ==
-    IsPt => /\ \A j \in 1..P.nh : \A i \in 1..P.nv : SlotName((j - 1) * P.nv + i) = [p |-> "weights_W", r |-> j, i |-> i]
+    IsPt => /\ \A j \in 1..P.nh : \A i \in 1..P.nv : (j - 1) * P.nv + i = LD!Slot(ArchOf, "weights_W", j, i)
+            /\ \A k \in 1..P.na : \A i \in 1..P.nv : OffU + (k - 1) * P.nv + i = LD!Slot(ArchOf, "weights_U", k, i)
+            /\ \A i \in 1..P.nv : OffB + i = LD!Slot(ArchOf, "visible_bias", 1, i)
+            /\ \A j \in 1..P.nh : OffC + j = LD!Slot(ArchOf, "hidden_bias", 1, j)
+            /\ \A k \in 1..P.na : OffD + k = LD!Slot(ArchOf, "aux_bias", 1, k)
+            /\ NPars = LD!NPars(ArchOf)
+            /\ \A j \in 1..P.nh : \A i \in 1..P.nv : SlotName((j - 1) * P.nv + i) = [p |-> "weights_W", r |-> j, i |-> i]
             /\ \A k \in 1..P.na : \A i \in 1..P.nv : SlotName(OffU + (k - 1) * P.nv + i) = [p |-> "weights_U", r |-> k, i |-> i]
             /\ \A i \in 1..P.nv : SlotName(OffB + i) = [p |-> "visible_bias", r |-> 0, i |-> i]
             /\ \A j \in 1..P.nh : SlotName(OffC + j) = [p |-> "hidden_bias", r |-> j, i |-> 0]
